@@ -25,6 +25,8 @@ from exabgp.bgp.message.update.nlri.label import Label
 from exabgp.bgp.message.update.nlri.nlri import NLRI
 from exabgp.bgp.message.update.nlri.settings import INETSettings
 from exabgp.bgp.message.update.attribute import Attribute, AttributeCollection
+from exabgp.bgp.message.update.collection import validate_announce_nlri
+from exabgp.bgp.message.update.nlri.empty import Empty
 
 from exabgp.rib.route import Route
 
@@ -371,6 +373,11 @@ class ParseStaticRoute(Section):
                 # Recreate NLRI with correct type based on actual RD/labels presence
                 # instead of mutating SAFI after creation
                 route.nlri = self._normalize_nlri_type(route.nlri)
+                # as for the one-line form: a route without next-hop cannot be announced
+                if Attribute.CODE.INTERNAL_WITHDRAW not in route.attributes and not isinstance(route.nlri, Empty):
+                    error = validate_announce_nlri(route.nlri, route.nexthop)
+                    if error:
+                        return self.error.set(error)
                 self.scope.append_route(route)
         return True
 
